@@ -477,15 +477,33 @@ def max_diff(a, b):
     return max(float(np.abs(x.full() - y.full()).max()) for x, y in zip(a, b))
 
 
-def roundtrip_case(ctx, rng, open_, method, het, exact):
+SITE_RFE = "stochastic.py:StochasticSolver.run_from_experiment"
+
+
+def as_form(arr, form):
+    """The record in the container the caller might use."""
+    a = np.array(arr, dtype=float)
+    if form == "C":
+        return np.ascontiguousarray(a)
+    if form == "F":
+        return np.asfortranarray(a)
+    return a.tolist()
+
+
+def snapshot(x):
+    return x.tobytes() if isinstance(x, np.ndarray) else json.dumps(x)
+
+
+def roundtrip_case(ctx, rng, open_, method, het, exact, nops=None, form=None, store=None):
     """run -> record -> run_from_experiment (fresh solvers).  Returns a list of
     (site, signature, message, detail)."""
     import qutip
-    nops = rng.choice([1, 2])
+    nops = nops or rng.choice([1, 1, 2, 3])
+    form = form or rng.choice(["C", "F", "list"])
     sysseed = rng.randrange(1 << 30)
     r2 = random.Random(sysseed)
     H, cs = small_system(r2, nops)
-    store = rng.choice(["start", "start", "middle", "end"])
+    store = store or rng.choice(["start", "start", "middle", "end"])
     dt = rng.choice([0.0625, 0.03125])
     T = 2 if exact else rng.choice([3, 5, 8])
     tlist = [k * dt for k in range(T + 1)]
@@ -499,7 +517,7 @@ def roundtrip_case(ctx, rng, open_, method, het, exact):
     rows = 2 if method in ("taylor1.5", "explicit1.5", "taylor1.5_imp") else 1
     n = nops * (2 if het else 1)
     key = {"open": open_, "method": method, "het": het, "nops": nops, "sysseed": sysseed,
-           "store": store, "dt": dt, "T": T, "exact": exact}
+           "store": store, "dt": dt, "T": T, "exact": exact, "record_form": form}
     found = []
 
     def solver():
@@ -575,20 +593,62 @@ def roundtrip_case(ctx, rng, open_, method, het, exact):
                               "state with trace %r / non-Hermitian part %.3g"
                               % (complex(np.trace(a)), float(np.abs(a - a.conj().T).max())), key))
                 break
-    # ---- replay from the recorded increments
+    # ---- replays from the recorded increments and from the measurement
+    # record.  The record is handed over in the container `form` (C-contiguous
+    # float64 array, Fortran-ordered array or nested list); it must come back
+    # unchanged, replaying twice from the same object (same solver) and once
+    # more on a fresh solver must give bitwise the same trajectory, and the
+    # replay must report the record it was given.
+    def replay_from(record, measurement):
+        what = "measurement" if measurement else "dW"
+        ref = np.array(record, dtype=float)
+        rec = as_form(ref, form)
+        snap = snapshot(rec)
+        s_a = solver()
+        try:
+            ra = s_a.run_from_experiment(rho0, tlist, rec, measurement=measurement)
+        except AttributeError as e:
+            if form != "list":
+                raise
+            found.append((SITE_RFE, "list-record-raises-AttributeError",
+                          "run_from_experiment does not accept the record as a (nested) list "
+                          "although `noise` is documented as array_like: %s" % e,
+                          dict(key, what=what)))
+            rec = as_form(ref, "C")
+            snap = snapshot(rec)
+            ra = s_a.run_from_experiment(rho0, tlist, rec, measurement=measurement)
+        detail = dict(key, what=what, record=ref.tolist())
+        if snapshot(rec) != snap:
+            found.append((SITE_RFE, "record-modified",
+                          "run_from_experiment(measurement=%s) modified the %s record it was "
+                          "given (%s, %d sc_ops, %s)" % (measurement, what, form, nops,
+                                                         "heterodyne" if het else "homodyne"),
+                          dict(detail, record_after=np.array(rec, dtype=float).tolist())))
+        rb = s_a.run_from_experiment(rho0, tlist, rec, measurement=measurement)
+        rc = solver().run_from_experiment(rho0, tlist, rec, measurement=measurement)
+        if not (states_equal(ra.states, rb.states) and states_equal(ra.states, rc.states)):
+            found.append((SITE_RFE, "second-replay-differs",
+                          "replaying again from the same %s record object gives another "
+                          "trajectory (2nd: %.3g, fresh solver: %.3g)"
+                          % (what, max_diff(ra.states, rb.states), max_diff(ra.states, rc.states)),
+                          detail))
+        got = np.array(ra.measurement if measurement else ra.dW, dtype=float)
+        scale = max(1.0, float(np.abs(ref).max()))
+        dev = float(np.abs(got - ref).max()) if got.shape == ref.shape else float("inf")
+        if (dev > 1e-9 * scale) if measurement else (dev != 0.0):
+            found.append((SITE_RFE, "replayed-record-differs",
+                          "the replay reports a %s record that differs from the one it was "
+                          "given by %.3g" % (what, dev), detail))
+        return ra
+
     with warnings.catch_warnings():
         warnings.simplefilter("ignore")
         try:
-            r2_ = solver().run_from_experiment(rho0, tlist, r1.dW)
+            r2_ = replay_from(r1.dW, False)
             if not states_equal(r1.states, r2_.states):
-                found.append(("stochastic.py:StochasticSolver.run_from_experiment",
-                              "replay-dW-differs",
+                found.append((SITE_RFE, "replay-dW-differs",
                               "replay from the recorded increments differs (max %.3g)"
                               % max_diff(r1.states, r2_.states), key))
-            elif not np.array_equal(np.array(r2_.dW), np.array(r1.dW)):
-                found.append(("stochastic.py:StochasticSolver.run_from_experiment",
-                              "replay-dW-record-differs",
-                              "replay reports other increments than it was given", key))
         except TypeError as e:
             found.append((SITE_SETSTATE, "TypeError", method, dict(key, error=str(e))))
         except NotImplementedError:
@@ -596,15 +656,14 @@ def roundtrip_case(ctx, rng, open_, method, het, exact):
         # ---- replay from the measurement record ("start" convention only)
         if store == "start":
             try:
-                r3 = solver().run_from_experiment(rho0, tlist, r1.measurement, measurement=True)
+                r3 = replay_from(r1.measurement, True)
                 d = max_diff(r1.states, r3.states)
                 # float replay through (m*dt)/sqrt2 - <M>*dt: validation with a
                 # tolerance; the exact version of this check is the scheme-step
                 # correspondence with measurement input (c17_sde)
                 tol = 1e-9
                 if d > tol:
-                    site = SITE_ROUCHON if method == "rouchon" else \
-                        "stochastic.py:StochasticSolver.run_from_experiment"
+                    site = SITE_ROUCHON if method == "rouchon" else SITE_RFE
                     sig = "measurement-input-used-as-increments" if method == "rouchon" \
                         else "replay-measurement-differs"
                     found.append((site, sig,
@@ -1232,12 +1291,18 @@ def run(ctx):
             for het in (False, True):
                 exact = (rep % 2 == 1)
                 tag = "%s/%s/%s" % ("sme" if open_ else "sse", method, "het" if het else "hom")
-                dist["roundtrip"][tag] = dist["roundtrip"].get(tag, 0) + 1
-                try:
-                    found = roundtrip_case(ctx, rng, open_, method, het, exact)
-                except Exception as e:
-                    found = [("roundtrip:%s" % method, "crash:" + type(e).__name__,
-                              "round trip crashed: %r" % (e,), {"tag": tag})]
+                found = []
+                # one monitored operator with a C-contiguous record and the
+                # "start" convention (so that the measurement replay runs),
+                # then 2 operators / Fortran order, then 3 operators / lists
+                for nops_, form_, store_ in ((1, "C", "start"), (2, "F", None), (3, "list", None)):
+                    dist["roundtrip"][tag] = dist["roundtrip"].get(tag, 0) + 1
+                    try:
+                        found += roundtrip_case(ctx, rng, open_, method, het, exact,
+                                                nops=nops_, form=form_, store=store_)
+                    except Exception as e:
+                        found.append(("roundtrip:%s" % method, "crash:" + type(e).__name__,
+                                      "round trip crashed: %r" % (e,), {"tag": tag}))
                 for site, sig, msg, detail in found:
                     if site == SITE_SETSTATE and sig == "TypeError":
                         type_errors.setdefault(msg, detail)
@@ -1344,7 +1409,9 @@ def replay(ctx, payload):
         rng = random.Random(0)
         for rep in range(40):
             found = roundtrip_case(ctx, rng, d.get("open", True), d.get("method", "euler"),
-                                   d.get("het", False), bool(d.get("exact")))
+                                   d.get("het", False), bool(d.get("exact")),
+                                   nops=d.get("nops"), form=d.get("record_form"),
+                                   store=d.get("store"))
             hit = [f for f in found if f[0] == payload["site"] and f[1] == payload["signature"]]
             if hit:
                 ctx.violation(hit[0][0], hit[0][1], hit[0][2], dict(hit[0][3], kind=kind))
